@@ -3,6 +3,7 @@ module verif/harness
 go 1.23.0
 
 require (
+	github.com/antlr4-go/antlr/v4 v4.13.1
 	github.com/openziti/foundation/v2 v2.0.59
 	github.com/openziti/storage v0.0.0
 	github.com/sirupsen/logrus v1.8.1
@@ -10,7 +11,6 @@ require (
 )
 
 require (
-	github.com/antlr4-go/antlr/v4 v4.13.1 // indirect
 	github.com/biogo/store v0.0.0-20190426020002-884f370e325d // indirect
 	github.com/davecgh/go-spew v1.1.1 // indirect
 	github.com/google/uuid v1.6.0 // indirect
